@@ -29,6 +29,14 @@ def setup(ctx):
     _state["cu"] = cu
     _state["classes"] = (TokenCooccurrenceVectorizer, MultiSetCooccurrenceVectorizer)
     _state["probes"] = Probes()
+    # allocate the accumulator with the dtypes the kernels use on the tree under test (read from a real kernel call)
+    import numba
+    probe = TokenCooccurrenceVectorizer(window_radii=1, window_orientations="after")
+    probe.fit([["a", "b", "a"]])
+    seqs = numba.typed.List([np.array([0, 1, 0], dtype=np.int32)]) if not ctx.interp else [np.array([0, 1, 0], dtype=np.int32)]
+    sample = probe._build_skip_grams(seqs)[0]
+    dt = {f: getattr(sample, f).dtype for f in ("row", "col", "val", "key", "ind", "min", "depth")}
+    _state["dtypes"] = dt
     if ctx.interp:
         # count which compaction paths run (interp: module globals are looked up at call time)
         pr = _state["probes"]
@@ -52,16 +60,18 @@ def setup(ctx):
         coo_sum_duplicates = cu.coo_sum_duplicates
         merge_all_sum_duplicates = cu.merge_all_sum_duplicates
 
+        d_row, d_col, d_val, d_key, d_ind, d_min, d_depth = (dt[f] for f in ("row", "col", "val", "key", "ind", "min", "depth"))
+
         @numba.njit(nogil=True)
         def drive(rows, cols, vals, keys, cap, check_every):
             coo = CooArray(
-                np.zeros(cap, dtype=np.int32),
-                np.zeros(cap, dtype=np.int32),
-                np.zeros(cap, dtype=np.float32),
-                np.zeros(cap, dtype=np.int64),
-                np.zeros(1, dtype=np.int64),
-                np.zeros(2 * np.int64(np.ceil(np.log2(cap))), dtype=np.int64),
-                np.zeros(1, dtype=np.int64),
+                np.zeros(cap, dtype=d_row),
+                np.zeros(cap, dtype=d_col),
+                np.zeros(cap, dtype=d_val),
+                np.zeros(cap, dtype=d_key),
+                np.zeros(1, dtype=d_ind),
+                np.zeros(2 * np.int64(np.ceil(np.log2(cap))), dtype=d_min),
+                np.zeros(1, dtype=d_depth),
             )
             total = 0.0
             grown = 0
@@ -258,14 +268,15 @@ def run(tape, ctx):
         _state["probes"].clear()
         _state["maxdepth"] = 0
         try:
+            dt = _state["dtypes"]
             coo = cu.CooArray(
-                np.zeros(cap, dtype=np.int32),
-                np.zeros(cap, dtype=np.int32),
-                np.zeros(cap, dtype=np.float32),
-                np.zeros(cap, dtype=np.int64),
-                np.zeros(1, dtype=np.int64),
-                np.zeros(2 * np.int64(np.ceil(np.log2(cap))), dtype=np.int64),
-                np.zeros(1, dtype=np.int64),
+                np.zeros(cap, dtype=dt["row"]),
+                np.zeros(cap, dtype=dt["col"]),
+                np.zeros(cap, dtype=dt["val"]),
+                np.zeros(cap, dtype=dt["key"]),
+                np.zeros(1, dtype=dt["ind"]),
+                np.zeros(2 * np.int64(np.ceil(np.log2(cap))), dtype=dt["min"]),
+                np.zeros(1, dtype=dt["depth"]),
             )
         except Exception as e:
             raise Violation(f"C04|L1|alloc-exception:{type(e).__name__}", f"cap={cap}: {e!r}", desc)
